@@ -159,5 +159,7 @@ def run(ctx):
     # the other composed stacks (AlmZeroFpr.v, AlmPantr.v, AlmFista.v, — the shipped default — AlmPanocDir.v and AlmZeroFprDir.v with the four providers
     # of Directions.v; end-to-end theorems C01_alm_{panoc,zerofpr}_{lbfgs,anderson,struclbfgs,noop}_converged_is_kkt): whole ALM runs of the real
     # stacks vs the composed models, with this property's KKT oracle on every composed run
+    # — and AlmPantrDir.v: ALMSolver<PANTRSolver<NewtonTRDirection>> (the shipped TR provider over SteihaugCG, exact Hessian products and finite
+    # differences; C01_alm_pantr_provider_converged_is_kkt / C01_alm_pantr_newtontr_converged_is_kkt / C01_alm_pantr_provider_refines_oracle_model)
     from vf.props import ALMSTACKS
     ALMSTACKS.attach(ctx, scale=1.5, extra_oracle=oracle)
